@@ -4,7 +4,30 @@
    Vocabulary (Data/Table.v): a table = index (kind, dtype, labels) + ordered named typed columns; `fmodel` = what the export
    reads of a BaseModel / BaseLinker (span, names, series, status, iterations); `wf_model m n` = the container invariants of a
    live object with n periods (names without duplicates, status / iterations not among them, every name has a series of n
-   cells — C09); `pd_index` / `pd_infer` / `np_cast` = pandas / NumPy as tabulated in DESIGN.md Appendix D (validated by K). *)
+   cells — C09); `pd_index` / `pd_infer` / `pd_of_series` / `np_cast` = pandas / NumPy as tabulated (DESIGN.md Appendix D;
+   every entry of the table is re-validated against the running libraries on every run: buckets pdtable/...).
+
+   What the theorems do NOT carry (K / the oracle only):
+   * the pandas / NumPy tables themselves are modelled, not verified: C19_export_cells_and_dtypes is `pd_of_series` unfolded
+     over the fsic-side column selection, the symbols theorems rest on `pd_infer`; Series.values / iterrows are the identity
+     on the tabulated cells (`col_values`);
+   * a third outcome, TUnmodelled, is excluded by every positive statement (`= TOk ...` / `= TErr ...`) and skipped by K:
+       - pd_infer: an int outside int64 next to None or floats (pandas' answer depends on the order of the cells); Period /
+         Timestamp / Timedelta next to None (NaT);
+       - np_cast: float -> str unless integral with |x| < 1e15 (repr of floats); float -> int of NaN / inf / values outside
+         int64 (NumPy returns INT64_MIN); text -> float / int unless it certainly is no number (first character a letter other
+         than n, N, i, I); ints outside int64 -> float / int;
+       - from_table: a column called strict, engine or default_value (passed to __init__ as that parameter; strict and
+         engine cannot be variables of a model);
+       - symbols: a text (str) lag / lead — the parser never produces one;
+   * "reproduces the span" is read as: the same LABELS in the same order (list(new.span) == list(old.span)).  The kind of the
+     span object is kept only for the four pandas kinds from_dataframe keeps (C19_kept_index_kinds); a range / tuple / ndarray /
+     Index span comes back as a list, and a list of Timestamps / Timedeltas / Periods as the pandas index the export built
+     (C19_span_kind_changes).  K compares the kind, the oracle does not;
+   * that the frames and models exchanged are copies (no views of each other's arrays) is observed by K only.
+   Theorems that only unfold a definition (they document the model, they cover no clause by themselves):
+   C19_starts_underscore_is_first_character, C19_kept_index_kinds, C19_from_dataframe_extra_positional, C19_type_values_invert
+   (the last one does depend on the regenerated constant table). *)
 From Coq Require Import String Ascii List ZArith Bool.
 Import ListNotations.
 Require Import PyBase Generated Symbols Table TableFacts TableExamples.
@@ -147,8 +170,9 @@ Print Assumptions C19_linker_name_clash_refuted.
 
 (* ================= from_dataframe after to_dataframe ================= *)
 
-(* the class that lists the model's variables, with the model's dtype: span labels, names and every series (dtype and
-   cells) are reproduced; status / iterations start afresh.  Guards: every variable is exported (include_internal, or no
+(* the class that lists the model's variables, with the model's dtype: span LABELS (in order; the kind of the span object is
+   the subject of C19_from_to_order_and_pairing / C19_span_kind_changes), names and every series (dtype and cells) are
+   reproduced; status / iterations start afresh.  Guards: every variable is exported (include_internal, or no
    underscore names), strict only for data-only tables, no variable named like an __init__ parameter, the index is the span *)
 Theorem C19_from_to_roundtrip (st it ii : bool) (m : fmodel) (ix : pindex) (c : mclass) :
   wf_model m (length (splabels (fspan m))) -> pd_index (fspan m) = Some ix -> span_stable (fspan m) = true ->
@@ -254,7 +278,8 @@ Print Assumptions C19_from_to_default_float.
 (* from_dataframe of ANY table with ANY class: when it returns, the new model has the table's index as span (a list, or the
    pandas time index itself), exactly the class's NAMES (duplicate-free) as variables in that order, every variable of the
    class dtype holding the cast of its column — or of the default value when the table has no such column —, fresh status /
-   iterations, and under strict=True every column of the table is a NAME.  Columns outside NAMES influence nothing. *)
+   iterations, and under strict=True every column of the table (other than one called dtype, which is taken as the dtype=
+   parameter) is a NAME.  Columns outside NAMES influence nothing. *)
 Theorem C19_from_dataframe_contract (c : mclass) (t : table) (m : fmodel) :
   from_table c t = TOk m ->
   fspan m = span_of_index (tindex t) /\ fnames m = cnames c /\ map fst (fvars m) = cnames c /\
@@ -266,7 +291,7 @@ Theorem C19_from_dataframe_contract (c : mclass) (t : table) (m : fmodel) :
      = TOk (scells s)) /\
   fstatus m = mkSeries NStr (repeat (CStr "-") (length (ilabels (tindex t)))) /\
   fiters m = mkSeries NInt (repeat (CInt (-1)) (length (ilabels (tindex t)))) /\
-  (cstrict c = true -> forall col, In col (tcols t) -> In (pcname col) (cnames c)).
+  (cstrict c = true -> forall col, In col (tcols t) -> pcname col <> "dtype" -> In (pcname col) (cnames c)).
 Proof. exact (from_table_char c t m). Qed.
 Print Assumptions C19_from_dataframe_contract.
 
@@ -307,6 +332,46 @@ Theorem C19_from_to_str_as_float_refuted :
   exists m c t, cnames c = fnames m /\ model_to_table false false false m = TOk t /\ from_table c t = TErr ValueError.
 Proof. exact from_to_str_as_float_refuted. Qed.
 Print Assumptions C19_from_to_str_as_float_refuted.
+
+(* the remaining guards are necessary as well.  strict=True with the status column: InitialisationError *)
+Theorem C19_from_to_strict_with_status_refuted :
+  exists m c t, cnames c = fnames m /\ cstrict c = true /\
+    model_to_table true false true m = TOk t /\ from_table c t = TErr InitialisationError.
+Proof. exact from_to_strict_with_status_refuted. Qed.
+Print Assumptions C19_from_to_strict_with_status_refuted.
+
+(* a variable called span (the positional parameter of __init__) or dtype: the exported table cannot be read back — TypeError *)
+Theorem C19_from_to_parameter_name_refuted :
+  exists m1 m2 c1 c2 t1 t2,
+    cnames c1 = fnames m1 /\ In "span" (fnames m1) /\ model_to_table false false true m1 = TOk t1 /\ from_table c1 t1 = TErr TypeError /\
+    cnames c2 = fnames m2 /\ In "dtype" (fnames m2) /\ model_to_table false false true m2 = TOk t2 /\ from_table c2 t2 = TErr TypeError.
+Proof. exact from_to_parameter_name_refuted. Qed.
+Print Assumptions C19_from_to_parameter_name_refuted.
+
+(* all hypotheses of C19_from_to_roundtrip hold together for a model with an underscore variable and a strict class *)
+Theorem C19_roundtrip_hypotheses_satisfiable :
+  exists m c ix,
+    wf_model m (length (splabels (fspan m))) /\ pd_index (fspan m) = Some ix /\ span_stable (fspan m) = true /\
+    cnames c = fnames m /\ cstrict c = true /\
+    (forall k, In k (fnames m) -> mem_s k init_params = false) /\
+    (forall k s, In k (fnames m) -> assoc_s k (fvars m) = Some s ->
+       sdt s = cdtype c /\ sdt s <> NObj /\ forallb (cell_has_dtype (cdtype c)) (scells s) = true) /\
+    exists k, In k (fnames m) /\ starts_underscore k = true.
+Proof. exact roundtrip_hypotheses_satisfiable. Qed.
+Print Assumptions C19_roundtrip_hypotheses_satisfiable.
+
+(* the KIND of the span object is not reproduced outside the four kept kinds (labels are): a range and an ndarray come back
+   as lists, a list of Timestamps as the DatetimeIndex the export built.  Not a violation under the labels reading of
+   "reproduces the span"; recorded so that the reading is explicit *)
+Theorem C19_span_kind_changes :
+  (exists ix, pd_index (mkSpan SRange [CInt 2000; CInt 2001]) = Some ix /\
+              span_of_index ix = mkSpan SList [CInt 2000; CInt 2001]) /\
+  (exists ix, pd_index (mkSpan SNdarray [CStr "a"; CStr "b"]) = Some ix /\
+              span_of_index ix = mkSpan SList [CStr "a"; CStr "b"]) /\
+  (exists ix, pd_index (mkSpan SList [CTs 5; CTs 2]) = Some ix /\
+              span_of_index ix = mkSpan (SPandas KDatetimeIndex PDatetime) [CTs 5; CTs 2]).
+Proof. exact span_kind_changes. Qed.
+Print Assumptions C19_span_kind_changes.
 
 (* ================= symbols_to_dataframe / dataframe_to_symbols ================= *)
 
@@ -349,12 +414,30 @@ Proof. exact (symbols_to_table_shape s r). Qed.
 Print Assumptions C19_symbols_table_shape.
 
 (* dataframe_to_symbols of ANY table either returns or raises KeyError (a field column is missing), TypeError (an extra
-   column; a lag that is text or too big), ValueError (not a Type value) or OverflowError (infinite lag) — nothing else *)
+   column; a lag that is text or too big), ValueError (not a Type value) or OverflowError (infinite lag) — nothing else.  Which
+   one comes first follows the loop body (first row): C19_dataframe_to_symbols_error_order *)
 Theorem C19_dataframe_to_symbols_errors (t : table) (e : exn) :
   table_to_symbols t = TErr e ->
   (match e with KeyError | TypeError | ValueError | OverflowError => true | _ => false end) = true.
 Proof. exact (table_to_symbols_errors t e). Qed.
 Print Assumptions C19_dataframe_to_symbols_errors.
+
+(* order of the errors: the first row is converted field by field (type, lags, leads, then the text fields) before the Symbol
+   is constructed, so a bad Type value wins over an extra or a later missing column, a missing earlier column over a bad later
+   cell, and the unexpected-keyword TypeError comes last *)
+Theorem C19_dataframe_to_symbols_error_order :
+  let ix := mkIndex KRange PInt64 [CInt 0] in
+  let col n d c := mkCol n d [c] in
+  let base ty := [col "name" PStrDt (CStr "X"); col "type" PInt64 (CInt ty); col "lags" PInt64 (CInt 0);
+                  col "leads" PInt64 (CInt 0); col "equation" PObject CNone; col "code" PObject CNone] in
+  table_to_symbols (mkTable ix (base 99 ++ [col "extra" PInt64 (CInt 1)])) = TErr ValueError /\
+  table_to_symbols (mkTable ix (base 2 ++ [col "extra" PInt64 (CInt 1)])) = TErr TypeError /\
+  table_to_symbols (mkTable ix (firstn 5 (base 99))) = TErr ValueError /\
+  table_to_symbols (mkTable ix (firstn 5 (base 2))) = TErr KeyError /\
+  table_to_symbols (mkTable ix (tl (tl (base 2)) ++ [col "extra" PInt64 (CInt 1)])) = TErr KeyError /\
+  table_to_symbols (mkTable ix ([col "lags" PStrDt (CStr "a"); col "extra" PInt64 (CInt 1)] ++ base 2)) = TErr TypeError.
+Proof. exact table_to_symbols_error_order. Qed.
+Print Assumptions C19_dataframe_to_symbols_error_order.
 
 (* Type(x) inverts the enum values read from the regenerated constant table (Gen/Generated.v: type_order) *)
 Theorem C19_type_values_invert (t : ptype) : type_of_value (type_value t) = Some t.
